@@ -11,9 +11,12 @@ var All = map[string]func(tier string) int{
 	"C06": C06,
 	"C07": C07,
 	"C08": C08,
+	"C09": C09,
+	"C10": C10,
 	"C11": C11,
 	"C12": C12,
 	"C14": C14,
+	"C15": C15,
 	"C16": C16,
 	"C17": C17,
 	"C18": C18,
